@@ -1668,6 +1668,69 @@ def _until(toks, i, stops, cond=False):
     raise TranslateError('unterminated fragment')
 
 
+def free_vars(e, acc=None):
+    """names of the local variables an expression AST mentions"""
+    acc = acc if acc is not None else []
+    if isinstance(e, tuple):
+        if e and e[0] == 'var':
+            if e[1] not in acc:
+                acc.append(e[1])
+            return acc
+        if e and e[0] == 'if':
+            free_vars(e[1], acc)
+            for br in (e[2], e[3]):
+                if br:
+                    bound = []
+                    for st in br[0]:
+                        if st[0] == 'let':
+                            if st[3] is not None:
+                                for v in free_vars(st[3], []):
+                                    if v not in bound and v not in acc:
+                                        acc.append(v)
+                            bound.append(st[1])
+                        else:
+                            for v in free_vars(st, []):
+                                if v not in bound and v not in acc:
+                                    acc.append(v)
+                    if br[1] is not None:
+                        for v in free_vars(br[1], []):
+                            if v not in bound and v not in acc:
+                                acc.append(v)
+            return acc
+        for x in e[1:]:
+            free_vars(x, acc)
+    elif isinstance(e, list):
+        for x in e:
+            free_vars(x, acc)
+    return acc
+
+
+def chase_lets(body_toks, e, known, opq, depth=0):
+    """`let` statements (in dependency order) defining the locals `e` mentions that are not among `known`:
+    a fragment may rest on intermediate `let`s of the same function, which are translated with it"""
+    if depth > 8:
+        raise TranslateError('chain of local definitions too long')
+    out = []
+    for v in free_vars(e):
+        if v in known or any(v == st[1] for st in out):
+            continue
+        try:
+            toks, dty = find_fragment(body_toks, ('let', v))
+        except TranslateError:
+            raise TranslateError('local variable %s is neither a listed input nor defined by a `let` of the function' % v)
+        if dty is not None and dty not in TYPES:
+            raise TranslateError('local variable %s has type %s' % (v, dty))
+        p = SParser(toks, opq)
+        d = p.expr()
+        if not p.done():
+            raise TranslateError('definition of %s not in the grammar near `%s`' % (v, p.near()))
+        for st in chase_lets(body_toks, d, known, opq, depth + 1):
+            if not any(st[1] == x[1] for x in out):
+                out.append(st)
+        out.append(('let', v, TYPES[dty] if dty else None, d, False))
+    return out
+
+
 def translate_fragment(ctx, cfg):
     src = ctx.repo.src(cfg['file'])
     cont = cfg.get('cont')
@@ -1721,9 +1784,16 @@ def translate_fragment(ctx, cfg):
     if cfg['frag'][0] in ('assign', 'selfassign') and cfg['frag'][2] != '=':
         tgt = ('var', cfg['frag'][1]) if cfg['frag'][0] == 'assign' else ('self', 'field', cfg['frag'][1])
         e = ('bin', cfg['frag'][2][0], tgt, e)
-    ty = want or em.ty_of(e) or 'i32'
+    pre = chase_lets(lex(body), e, set(env), opq)
+    if pre:
+        # type of the fragment: needs the chased locals in scope, so compile them first in a scratch emitter
+        probe = em.fork()
+        probe.block_open(pre, ('num', 0, 'i32'), 'int', 'i32')
+        ty = want or probe.ty_of(e) or 'i32'
+    else:
+        ty = want or em.ty_of(e) or 'i32'
     kind = 'bool' if ty == 'bool' else 'int'
-    lines = em.close(em.result(e, kind, ty))
+    lines = em.block(pre, e, kind, ty)
     coq = cfg['coq']
     allp = [(t, ty2) for t, ty2 in self_env.values()] + [(t, ty2) for t, ty2 in opaque_env.values()] + [('v_' + n, t) for n, t in ps]
     rtext = 'outcome bool' if kind == 'bool' else 'outcome Z'
